@@ -778,7 +778,8 @@ def check_c18(prog, rep, tier, cfg):
 VEC_REMOVERS = ("retain", "retain_mut", "dedup", "dedup_by", "dedup_by_key", "remove", "swap_remove", "truncate", "drain", "pop", "clear", "split_off", "extract_if", "resize",
                 "resize_with", "pop_if")
 ITER_DROPPERS = ("filter", "filter_map", "skip", "skip_while", "take", "take_while", "step_by", "map_while", "dedup", "dedup_by", "dedup_by_key", "unique", "unique_by",
-                 "find", "find_map", "nth", "last", "next", "next_back", "flatten", "flat_map", "scan", "positions")
+                 "find", "find_map", "nth", "last", "next", "next_back", "scan", "positions")
+LIST_BUILDERS = ("push", "extend", "collect", "flat_map", "flatten", "chain", "append", "extend_from_slice")
 
 
 def c18f(prog, rep):
@@ -802,10 +803,17 @@ def c18f(prog, rep):
                     bad.append("%s:%s %s on a vector of paths" % (short(b.npath), c.line, cal.split("::")[-1]))
     rep.check(not bad, R, "path-lists-only-grow", "a list of files to format is shortened: a file that is formatted when given alone can be left out of a batch (e.g. two paths that a "
               "normalisation considers equal): %s" % bad[:3], instance={"vec_of_paths_operations": n, "violating": bad[:5]})
-    rep.floor(R, "operations on vectors of paths in the orchestrator", n, 3)
-    ex = [b for b in prog.bodies.values() if b.npath.startswith(FF + "expand_paths")]
+    import layout as _layout
+    # the expansion code: expand_paths, its closures, and private helpers called only from there (extracted arms)
+    fam_roots = {FF + "expand_paths"}
+    cand = {norm(c.t.get("resolved") or c.callee or "") for b in prog.bodies.values() if b.npath.startswith(FF + "expand_paths") for c in b.calls()}
+    cand = {x for x in cand if x.startswith("pasfmt_orchestrator::") and x != "pasfmt_orchestrator::file_formatter::formattable_file_path"}
+    fam_roots |= set(_layout.helper_closure(prog, sorted(cand), [FF + "expand_paths"]))
+    ex = [b for b in prog.bodies.values() if any(b.npath == r or b.npath.startswith(r + "::") for r in fam_roots)]
     if not rep.check(bool(ex), R, "anchor:expand_paths", "expand_paths not found"):
         return
+    builders = sum(1 for b in ex for c in b.calls() if (c.callee or "").split("::")[-1] in LIST_BUILDERS)
+    rep.floor(R, "list-building operations in the path expansion (push / extend / collect / flat_map)", builders, 3)
     drops = []
     for b in ex:
         for c in b.calls():
